@@ -38,6 +38,10 @@ Inductive pop :=
 | PRemoveReader         (* loop.remove_reader(fd=rx.fileno()) *)
 | PClearEvent           (* event.clear() *)
 | PRecv (handlers : list (list exn * paction))   (* [try:] result = rx.recv() [except <classes>: <action>]* *)
+| PRecvDefer (handlers : list (list exn * paction))
+                        (* the same try statement WITH a finally clause: the ops of the finally body follow, then
+                           PReraise; an exception no handler catches is kept pending while they run *)
+| PReraise              (* end of the finally body: a pending exception propagates now *)
 | PJoin                 (* process.join() *)
 | PCloseRx              (* rx.close() *)
 | PRaiseIfError         (* if isinstance(result, SubprocessError): raise result.exception *)
@@ -64,6 +68,7 @@ Record beh := {
   b_pick : bool;            (* the payload can be pickled *)
   b_async : bool;           (* the callee is a coroutine function *)
   b_ret_err : bool;         (* the value the callee RETURNS is itself an instance of SubprocessError *)
+  b_unp : bool;             (* the payload pickles in the child, but UNPICKLING it in the parent raises *)
 }.
 
 (* exception objects in the state: the callee's own exception object, or a fresh one of a class *)
@@ -84,13 +89,14 @@ Inductive rval := RVal | RErr (x : xval).    (* the local variable `result` *)
 Inductive cpend := CPNone | CPOk | CPOkCoroutine | CPRaise | CPHandled.
 
 Record pside := {
-  p_pc : nat; p_stat : pstat; p_ends : ends; p_reader : bool; p_result : option rval; p_joined : bool }.
+  p_pc : nat; p_stat : pstat; p_ends : ends; p_reader : bool; p_result : option rval; p_joined : bool;
+  p_pending : option exn (* exception waiting for the end of a finally body *) }.
 Record cside := {
   c_stat : cstatus; c_pc : nat; c_ends : ends; c_pend : cpend; c_sending : bool; c_killed : bool }.
 Record lst := { ps : pside; cs : cside; data : list msg }.
 
 Definition pside0 : pside :=
-  {| p_pc := 0; p_stat := PSRun; p_ends := no_ends; p_reader := false; p_result := None; p_joined := false |}.
+  {| p_pc := 0; p_stat := PSRun; p_ends := no_ends; p_reader := false; p_result := None; p_joined := false; p_pending := None |}.
 Definition cside0 : cside :=
   {| c_stat := CNotStarted; c_pc := 0; c_ends := no_ends; c_pend := CPNone; c_sending := false; c_killed := false |}.
 Definition linit : lst := {| ps := pside0; cs := cside0; data := [] |}.
@@ -111,22 +117,25 @@ Section Local.
   Definition p_set (s : lst) (p : pside) : lst := {| ps := p; cs := cs s; data := data s |}.
   Definition p_adv (p : pside) : pside :=
     {| p_pc := S (p_pc p); p_stat := p_stat p; p_ends := p_ends p; p_reader := p_reader p;
-       p_result := p_result p; p_joined := p_joined p |}.
+       p_result := p_result p; p_joined := p_joined p; p_pending := p_pending p |}.
   Definition p_with_stat (p : pside) (st : pstat) : pside :=
     {| p_pc := p_pc p; p_stat := st; p_ends := p_ends p; p_reader := p_reader p;
-       p_result := p_result p; p_joined := p_joined p |}.
+       p_result := p_result p; p_joined := p_joined p; p_pending := p_pending p |}.
   Definition p_with_ends (p : pside) (e : ends) : pside :=
     {| p_pc := p_pc p; p_stat := p_stat p; p_ends := e; p_reader := p_reader p;
-       p_result := p_result p; p_joined := p_joined p |}.
+       p_result := p_result p; p_joined := p_joined p; p_pending := p_pending p |}.
   Definition p_with_reader (p : pside) (r : bool) : pside :=
     {| p_pc := p_pc p; p_stat := p_stat p; p_ends := p_ends p; p_reader := r;
-       p_result := p_result p; p_joined := p_joined p |}.
+       p_result := p_result p; p_joined := p_joined p; p_pending := p_pending p |}.
   Definition p_with_result (p : pside) (r : rval) : pside :=
     {| p_pc := p_pc p; p_stat := p_stat p; p_ends := p_ends p; p_reader := p_reader p;
-       p_result := Some r; p_joined := p_joined p |}.
+       p_result := Some r; p_joined := p_joined p; p_pending := p_pending p |}.
   Definition p_with_joined (p : pside) : pside :=
     {| p_pc := p_pc p; p_stat := p_stat p; p_ends := p_ends p; p_reader := p_reader p;
-       p_result := p_result p; p_joined := true |}.
+       p_result := p_result p; p_joined := true; p_pending := p_pending p |}.
+  Definition p_with_pending (p : pside) (e : option exn) : pside :=
+    {| p_pc := p_pc p; p_stat := p_stat p; p_ends := p_ends p; p_reader := p_reader p;
+       p_result := p_result p; p_joined := p_joined p; p_pending := e |}.
   Definition p_finish (s : lst) (f : pfinal) : lst := p_set s (p_with_stat (ps s) (PSDone f)).
   Definition p_next (s : lst) : lst := p_set s (p_adv (ps s)).
 
@@ -154,6 +163,29 @@ Section Local.
         p_set s (p_adv (p_with_result (ps s) (RErr (XCls ChildProcessErrorC))))
     | None => p_finish s (FRaise (XCls e))
     end.
+  (* inside try ... finally: what no handler catches waits until the finally body has run *)
+  Definition p_raise_in_recv_defer (s : lst) (e : exn) (hs : list (list exn * paction)) : lst :=
+    match find_handler e hs with
+    | Some PASetChildProcessError =>
+        p_set s (p_adv (p_with_result (ps s) (RErr (XCls ChildProcessErrorC))))
+    | None => p_set s (p_adv (p_with_pending (ps s) (Some e)))
+    end.
+
+  (* result = rx.recv(): `raise_` says what an exception does (propagate / wait for the finally) *)
+  Definition p_recv (s : lst) (hs : list (list exn * paction))
+                    (raise_ : lst -> exn -> list (list exn * paction) -> lst) : option lst :=
+    let p := ps s in
+    if e_rx (p_ends p) then
+      match k_recv (data s) (l_writers env s) with
+      | RecvMsg pl rest =>
+          let s' := {| ps := p; cs := cs s; data := rest |} in
+          if b_unp b then Some (raise_ s' UnpickleErrC hs)         (* the message is consumed, loads() raises *)
+          else Some {| ps := p_adv (p_with_result p (match pl with PlResult => RVal | PlError => RErr XCallee end));
+                       cs := cs s; data := rest |}
+      | RecvBlock => None                                        (* blocks the whole loop thread *)
+      | RecvRaise e => Some (raise_ s e hs)
+      end
+    else Some (raise_ s OSErrorC hs).                            (* handle is closed *)
 
   Definition p_exec (s : lst) (op : pop) : option lst :=
     let p := ps s in
@@ -178,16 +210,13 @@ Section Local.
           if k_readable (data s) (l_writers env s) then Some (p_next s)
           else Some (p_set s (p_adv (p_with_stat p PSWait)))         (* suspends; other tasks run *)
         else Some (p_finish s (FRaise (XCls OSErrorC)))
-    | PRecv hs =>
-        if e_rx (p_ends p) then
-          match k_recv (data s) (l_writers env s) with
-          | RecvMsg pl rest =>
-              Some {| ps := p_adv (p_with_result p (match pl with PlResult => RVal | PlError => RErr XCallee end));
-                      cs := cs s; data := rest |}
-          | RecvBlock => None                                        (* blocks the whole loop thread *)
-          | RecvRaise e => Some (p_raise_in_recv s e hs)
-          end
-        else Some (p_raise_in_recv s OSErrorC hs)                    (* handle is closed *)
+    | PRecv hs => p_recv s hs p_raise_in_recv
+    | PRecvDefer hs => p_recv s hs p_raise_in_recv_defer
+    | PReraise =>
+        match p_pending p with
+        | Some e => Some (p_finish s (FRaise (XCls e)))
+        | None => Some (p_next s)
+        end
     | PJoin =>
         match c_stat (cs s) with
         | CNotStarted => Some (p_finish s (FRaise (XCls AssertionErrorC)))  (* can only join a started process *)
@@ -315,6 +344,30 @@ Definition lstep (P : list pop) (C : list cop) (b : beh) (env : nat) (c : lchoic
 Definition lstep_skip P C b (c : lchoice) (s : lst) : lst :=
   match lstep P C b 0 c s with Some s' => s' | None => s end.
 Definition lrun P C b (sched : list lchoice) (s : lst) : lst := fold_left (fun s c => lstep_skip P C b c s) sched s.
+
+(* ---- argument binding ------------------------------------------------------------------------
+   The caller's keyword arguments travel through `calculate_in_subprocess(func, *args, **kwargs)`
+   and `_inner(tx, fun, *a, **kw_args)`.  A keyword NAMED like one of those parameters (`func`; `tx`,
+   `fun`) does not reach the callee unless the parameters are positional-only: the call of
+   calculate_in_subprocess raises TypeError before anything is created, resp. the call of _inner
+   raises in the child before _inner's body starts, i.e. the child dies without reporting.
+   The names are part of the input (`kwcoll`), whether the parameters are positional-only comes
+   from the translator (`kwflags`). *)
+Inductive kwcoll := KWNone | KWParent (* a keyword named `func` *) | KWChild (* named `tx` / `fun` *).
+Record kwflags := { kw_parent_safe : bool; kw_child_safe : bool }.
+Definition kw_binds (fl : kwflags) (k : kwcoll) : bool :=
+  match k with KWNone => true | KWParent => kw_parent_safe fl | KWChild => kw_child_safe fl end.
+Definition beh_dies (b : beh) : beh :=
+  {| b_out := CDie; b_isa := b_isa b; b_big := b_big b; b_pick := b_pick b; b_async := b_async b;
+     b_ret_err := b_ret_err b; b_unp := b_unp b |}.
+Definition beh_kw (fl : kwflags) (k : kwcoll) (b : beh) : beh :=
+  match k with KWChild => if kw_child_safe fl then b else beh_dies b | _ => b end.
+Definition lrun_kw P C (fl : kwflags) (k : kwcoll) b (sched : list lchoice) : lst :=
+  match k with
+  | KWParent => if kw_parent_safe fl then lrun P C b sched linit
+                else p_finish linit (FRaise (XCls TypeErrorC))     (* nothing has been created *)
+  | _ => lrun P C (beh_kw fl k b) sched linit
+  end.
 
 Definition l_enabled P C b (s : lst) : bool :=
   existsb (fun c => match lstep P C b 0 c s with Some _ => true | None => false end) lchoices.
